@@ -468,7 +468,7 @@ var vOps7 = []string{"=", "!=", "^=", ">", ">=", "<", "<="}
 var vOps6 = []string{"=", "!=", ">", ">=", "<", "<="}
 
 // vNumAtomsC01 atoms of the documented core language (regexp excluded)
-const vNumAtomsC01 = 60
+const vNumAtomsC01 = 64
 
 func vAtomC01(i int, h *vHoles) *vRef {
 	switch {
@@ -534,6 +534,14 @@ func vAtomC01(i int, h *vHoles) *vRef {
 		return vCmp("=", vArith("+", vArith("+", h.num(), vFn("int", vValueRef())), h.num()), h.num())
 	case i == 59:
 		return vCmp("<", vArith("*", vArith("*", vFn("int", vValueRef()), vNumConst(2)), vNumConst(3)), h.num())
+	case i == 60: // a literal on the left of a row-dependent operand (vector evaluation must not share the literal's buffer between rows)
+		return vCmp("=", vConcat(h.text(), vValueRef()), vKeyRef())
+	case i == 61:
+		return vCmp("!=", vConcat(h.text(), vValueRef()), vKeyRef())
+	case i == 62:
+		return vCmp("^=", vValueRef(), vConcat(h.text(), vKeyRef()))
+	case i == 63:
+		return vCmp("<", vConcat(h.text(), vConcat(vValueRef(), h.text())), vKeyRef())
 	}
 	return &vRef{node: rTrue}
 }
